@@ -123,12 +123,13 @@ def make_config(spec):
     return cfg
 
 
-TURTLE_EXAMPLE = "/repo/examples/turtlemd/double_well"
+REPO = os.environ.get("VERIF_REPO", "/repo")
+TURTLE_EXAMPLE = os.path.join(REPO, "examples/turtlemd/double_well")
 
 
 def make_turtle_config(spec):
     """The repository's own double-well example (TurtleMD, Langevin)."""
-    with open("/repo/test/simulations/data/wf.toml", "rb") as f:
+    with open(os.path.join(REPO, "test/simulations/data/wf.toml"), "rb") as f:
         cfg = tomli.load(f)
     cfg["runner"] = {"workers": spec.get("workers", 1)}
     sim = cfg["simulation"]
@@ -276,6 +277,8 @@ class Rig:
         self.segment = -1
         self.run_md = itis.run_md
         self.step_log = []
+        self.kill_in = None
+        self._kill_in_count = 0
 
     # -- bookkeeping -------------------------------------------------------
     def ev(self, name, k=1):
@@ -300,9 +303,17 @@ class Rig:
             f = getattr(m, name, None)
             if f is not None:
                 f(self, *a, **kw)
+        # simulated crash of the main process *inside* a step: after the
+        # n-th occurrence of a hook point (all files written so far are
+        # closed, so the directory is what a crash there leaves on disk)
+        if self.kill_in and name == self.kill_in[0]:
+            self._kill_in_count += 1
+            if self._kill_in_count == self.kill_in[1]:
+                self.ev("killed_inside_step:" + name)
+                raise StopRun()
 
     # -- running -----------------------------------------------------------
-    def run_segment(self, inp="infretis.toml", kill_after=None):
+    def run_segment(self, inp="infretis.toml", kill_after=None, kill_in=None):
         """Run the real scheduler once (one process life time).
 
         Returns "done", "killed", "nothing" (setup_config returned None) or
@@ -311,6 +322,8 @@ class Rig:
         install_patches()
         self.segment += 1
         self.kill_after = kill_after
+        self.kill_in = tuple(kill_in) if kill_in else None
+        self._kill_in_count = 0
         self.stopped = False
         reset_globals()
         old = os.getcwd()
